@@ -87,52 +87,136 @@ def binding_selftest(res, trace, tag, flip):
         raise ToolError("binding self-test: corrupted record was not rejected")
 
 
-def check_C06(tier):
-    res = Result("C06", tier, "model_checking")
-    res.rule = ("E1: every cell of the TRG decision table (counter orderings x single deviations: marks, "
-                "low-28 agreement bits, each reserved bit, each free bit, lengths) visited by TLC; every cell "
-                "replayed through TrgPacket::try_from and validated (verdict, 18 accessors, re-encoding, counter "
-                "order) by Trace_Dec; plus seeded random/mutational 80-byte strings and all lengths 0..200. "
-                "distinct_nontrivial = distinct (cell kind | mutation kind, verdict) classes observed with both "
-                "verdicts counted separately")
-    res.assumptions = ["TLA+ TrgV3 module is the reference semantics written from the documented layout",
-                       "harness projector reports accessor values faithfully (checked by binding self-test)"]
-    cfg = write_cfg("MC_Trg_" + tier, constants={"Tier": '"%s"' % tier},
-                    invariants=["Agree", "RoundTrip", "Export"])
-    r = tlc_model_check("MC_Trg", cfg, "mc_trg_" + tier, expect_actions=["Pick", "Decode"], workers=8)
+def config_path():
+    """Configuration trace (board tables through the public API), rebuilt from /repo each run."""
+    path = os.path.join(BUILD, "config.json")
+    vh = build_harness("release")
+    import subprocess
+    p = subprocess.run([vh, "config", "--out", path], stdout=subprocess.PIPE, stderr=subprocess.STDOUT, text=True)
+    if p.returncode != 0:
+        raise ToolError("vh config failed: " + p.stdout[-500:])
+    os.environ["VCONFIG"] = path
+    return path
+
+
+def kind_of(rec):
+    if "cell" in rec:
+        c = rec["cell"]
+        return str(c[0]) + ":" + str(c[1]) if len(c) > 1 and isinstance(c[1], str) else str(c[0])
+    return re.sub(r"\d+.*", "", rec.get("kind", ""))
+
+
+def decoder_check(prop, fam, tier, mc_module, mc_invariants, rule, n_quick, n_thorough, flip,
+                  profiles_quick=("release",), gen_slices=100000, extra_gen=(), mc_actions=("Pick", "Decode")):
+    res = Result(prop, tier, "model_checking")
+    res.rule = rule
+    res.assumptions = ["the TLA+ module for this format is the reference semantics, written from the documented layout",
+                       "board tables enter as a configuration trace recorded through the public API (DESIGN 3.5)",
+                       "the harness projector reports accessor values faithfully (binding self-test in the thorough tier)"]
+    config_path()
+    cfg = write_cfg("%s_%s" % (mc_module, tier), constants={"Tier": '"%s"' % tier},
+                    invariants=list(mc_invariants) + ["Export"])
+    r = tlc_model_check(mc_module, cfg, "%s_%s" % (mc_module.lower(), tier), expect_actions=list(mc_actions),
+                        workers=8)
     res.add_mc(r)
-    cells = os.path.join(BUILD, "traces", "c06_cells.ndjson")
-    ncell = extract_replay_to_file(r, cells)
-    if ncell == 0:
+    cells = os.path.join(BUILD, "traces", "%s_cells.ndjson" % prop)
+    if extract_replay_to_file(r, cells) == 0:
         raise ToolError("no cells exported")
-    profiles = ["release"] if tier == "quick" else ["release", "checked"]
+    profiles = list(profiles_quick) if tier == "quick" else ["release", "checked"]
     kinds = set()
     for prof in profiles:
-        t1 = os.path.join(BUILD, "traces", "c06_cells_%s.ndjson" % prof)
+        t1 = os.path.join(BUILD, "traces", "%s_cells_%s.ndjson" % (prop, prof))
         res.evaluations += run_vh(["decode", "--in", cells], t1, profile=prof)
-        validate_dec_trace(res, t1, "c06_cells_" + prof, prof)
-        t2 = os.path.join(BUILD, "traces", "c06_gen_%s.ndjson" % prof)
-        n = 30000 if tier == "quick" else 400000
-        res.evaluations += run_vh(["gen", "trg", "--seed", str(seed()), "--n", str(n)], t2, profile=prof)
-        # validate in slices of 100k records
-        for k, part in enumerate(split_file(t2, 100000)):
-            validate_dec_trace(res, part, "c06_gen_%s_%d" % (prof, k), prof)
-        for t in (t1, t2):
+        validate_dec_trace(res, t1, "%s_cells_%s" % (prop, prof), prof)
+        traces = [t1]
+        n = n_quick if tier == "quick" else n_thorough
+        gens = [(fam, n)] + list(extra_gen)
+        for gfam, gn in gens:
+            t2 = os.path.join(BUILD, "traces", "%s_gen_%s_%s.ndjson" % (prop, gfam, prof))
+            res.evaluations += run_vh(["gen", gfam, "--seed", str(seed()), "--n", str(gn), "--tier", tier], t2, profile=prof)
+            for k, part in enumerate(split_file(t2, gen_slices)):
+                validate_dec_trace(res, part, "%s_gen_%s_%s_%d" % (prop, gfam, prof, k), prof)
+            traces.append(t2)
+        for t in traces:
             with open(t) as f:
                 for line in f:
                     rec = json.loads(line)
-                    kind = rec.get("cell", [rec.get("kind", "")])[0] if "cell" in rec else re.sub(r"\d+.*", "", rec.get("kind", ""))
-                    kinds.add((kind, rec.get("verdict")))
-        if prof == "release":
+                    kinds.add((kind_of(rec), rec.get("verdict")))
+        if prof == profiles[0]:
             sample_from(t1, res, limit=2)
-            sample_from(t2, res, limit=5)
+            sample_from(traces[1], res, limit=5)
     res.distinct = len(kinds)
-    if tier == "thorough":
-        def flip(rec):
-            rec["acc"]["ts"][3] = (rec["acc"]["ts"][3] + 1) % 256
-            return rec
-        binding_selftest(res, os.path.join(BUILD, "traces", "c06_cells_release.ndjson"), "c06", flip)
+    if tier == "thorough" and flip is not None:
+        binding_selftest(res, os.path.join(BUILD, "traces", "%s_cells_release.ndjson" % prop), prop, flip)
     return res.finish()
+
+
+def check_C06(tier):
+    def flip(rec):
+        rec["acc"]["ts"][3] = (rec["acc"]["ts"][3] + 1) % 256
+        return rec
+    rule = ("E1: every cell of the TRG decision table (counter orderings x single deviations: marks, "
+            "low-28 agreement bits, each reserved bit, each free bit, lengths) visited by TLC; every cell "
+            "replayed through TrgPacket::try_from and validated (verdict, 18 accessors, re-encoding, counter "
+            "order) by Trace_Dec; plus seeded random/mutational 80-byte strings and all lengths 0..200. "
+            "distinct_nontrivial = distinct (cell kind | mutation kind, verdict) classes observed")
+    return decoder_check("C06", "trg", tier, "MC_Trg", ["Agree", "RoundTrip"], rule, 30000, 400000, flip)
+
+
+def check_C02(tier):
+    def flip(rec):
+        rec["acc"]["base"] = rec["acc"]["base"] + 1 if rec["acc"]["base"] < 100 else rec["acc"]["base"] - 1
+        return rec
+    rule = ("E1: decision table of the ADC v3 decoder (length class x suppression x keep_bit x keep_last in "
+            "{0,1,33,34,35,4095} x requested in {0,1,2,n+1,n+2,n+3,65535} x n around 63..68 x baseline exact/+-1 x "
+            "sample patterns incl. i16 extremes and a negative floor boundary, plus single-field deviations and the "
+            "16-byte form): abstract rule = byte-level AdcWellFormed = saturating guard ladder, accepted cells "
+            "re-encode; every cell and seeded structured/mutated packets (64..32749 samples) go through "
+            "AdcPacket::try_from, each record validated by Trace_Dec (verdict, 15 accessors, re-encoding modulo the "
+            "two unused footer bits). quick tier runs both cargo profiles because the statement covers both. "
+            "distinct_nontrivial = distinct (cell kind | mutation kind, verdict) classes observed")
+    return decoder_check("C02", "adc", tier, "MC_Adc", ["Agree", "RoundTrip", "LadderAgree"], rule, 8000, 150000,
+                         flip, profiles_quick=("release", "checked"), gen_slices=20000)
+
+
+def check_C03(tier):
+    def flip(rec):
+        rec["acc"]["payload"] = list(rec["acc"]["payload"])
+        rec["acc"]["payload"][0] = (rec["acc"]["payload"][0] + 1) % 256
+        return rec
+    rule = ("E1 (MC_Chunk): decision table of the chunk decoder with valid CRC words (length classes x declared "
+            "length window, non-zero padding, chip, flags, device, each bit of both CRC words) and exhaustive fault "
+            "enumeration on minimal chunks at spec level: every 1-, 2- (thorough: 3-) bit flip and every burst up "
+            "to 9 (thorough 13) bits with every interior pattern is rejected, codewords partition the chunk. "
+            "E2/E3: the real Chunk::try_from on all devices x chips x flags, payload lengths 1..64 and a ladder to "
+            "65535, and for accepted base chunks every single-bit flip, every burst length 2..32 at every bit "
+            "offset, sampled pairs/triples (within 64 bits and across codewords); TLC recomputes both CRC-32C "
+            "words for every record (verdict, accessors, re-encoding) and requires every mutant to be rejected by "
+            "the spec too. distinct_nontrivial = distinct (kind, verdict) classes")
+    return decoder_check("C03", "chunk", tier, "MC_Chunk",
+                         ["TableAgree", "TableRoundTrip", "BasesAccepted", "FaultRejected", "Cover"], rule,
+                         3000, 40000, flip, mc_actions=["PickTable", "Flip1", "Flip2", "Burst", "JudgeTable", "JudgeFault"])
+
+
+def check_C05(tier):
+    def flip(rec):
+        w = rec["acc"]["waves"]
+        for k, x in enumerate(w):
+            if x != [99999] and len(x) > 0:
+                w[k] = [x[0] + 1] + x[1:]
+                return rec
+        rec["acc"]["delay"] = (rec["acc"]["delay"] + 1) % 65536
+        return rec
+    rule = ("E1 (MC_Pwb): all 79 single-channel masks, adjacent pairs, full and empty mask x requested samples "
+            "{0,1,2,3,510,511} and every single-field fault (version, chip, compression, trigger, MAC, zero bytes, "
+            "limits 511/512, bit 79 of both masks, block index/count/padding, marker, +-1/2/4 bytes): abstract rule "
+            "= PwbWellFormed, accepted cells re-encode and have a waveform of exactly requested_samples for exactly "
+            "the sent channels. E2/E3: cells and seeded packets (random masks, all 256 values of the four leading "
+            "bytes, all MACs, 79x511 packets) through PwbPacket::try_from; TLC checks verdict, all scalar accessors, "
+            "sent/over-threshold lists, waveform_at for all 79 channel ids and exact re-encoding. "
+            "distinct_nontrivial = distinct (kind, verdict) classes")
+    return decoder_check("C05", "pwb", tier, "MC_Pwb", ["Agree", "RoundTrip"], rule, 4000, 60000, flip,
+                         gen_slices=10000)
 
 
 def split_file(path, n):
